@@ -12,11 +12,16 @@ var errCanSetField = errors.New("cannot set field")
 
 type overlayer struct {
 	dc *deepCopier
+	// merging holds the overlay pointers reached through interface values
+	// whose pointees are being merged, so that overlay values which refer
+	// back to themselves through an interface terminate.
+	merging map[uintptr]struct{}
 }
 
 func newOverlayer() *overlayer {
 	return &overlayer{
-		dc: newDeepCopier(),
+		dc:      newDeepCopier(),
+		merging: map[uintptr]struct{}{},
 	}
 }
 
@@ -214,6 +219,13 @@ func (o *overlayer) overlayInterface(base, overlay reflect.Value) error {
 		// check whether the overlay pointer-type matches the base-value's contained type
 		// or the pointee type matches the base-value's contained type
 		if !base.IsNil() && (base.Elem().Type() == overlay.Type() || base.Elem().Type() == overlay.Type().Elem()) {
+			if _, inProgress := o.merging[overlay.Pointer()]; inProgress {
+				// a cycle through interface values: this overlay
+				// pointee is already being merged further up.
+				return nil
+			}
+			o.merging[overlay.Pointer()] = struct{}{}
+			defer delete(o.merging, overlay.Pointer())
 			if err := o.overlayField(base, overlay.Elem()); err != nil {
 				return fmt.Errorf("failed to overlay ptr type %s onto %s: %s", overlay.Type(), base.Type(), err)
 			}
